@@ -42,7 +42,8 @@ Inductive op :=
 | RemType (l : nat)
 | SetGAttr (a : attrs)
 | Copy
-| Subgraph (ns : list nat).
+| Subgraph (ns : list nat)
+| ClearAll.
 
 Definition sel_match (t : sel) (l : nat) : bool :=
   match t with SAll => true | SName l' => Nat.eqb l l' end.
@@ -63,12 +64,13 @@ Record alg (S : Type) := mkAlg {
   p_add_layer : nat -> kind -> S -> S;                  (* empty layer on the current nodes; no-op if the name exists *)
   p_del_layer : nat -> S -> S;
   p_set_gattr : attrs -> S -> S;
+  p_clear_all : S -> S;                                 (* clear(): no nodes, no edges, no graph attrs; edge types stay *)
   p_restrict : list nat -> S -> S                       (* induced subgraph, attributes of nodes and edges dropped *)
 }.
 Arguments has_node {S}. Arguments layer_kind {S}. Arguments has_edge {S}.
 Arguments p_add_node {S}. Arguments p_del_node {S}. Arguments p_ins_edge {S}. Arguments p_del_edge {S}.
 Arguments p_clear {S}. Arguments p_add_layer {S}. Arguments p_del_layer {S}. Arguments p_set_gattr {S}.
-Arguments p_restrict {S}.
+Arguments p_restrict {S}. Arguments p_clear_all {S}.
 
 Section Generic.
   Context {S : Type} (A : alg S).
@@ -130,6 +132,7 @@ Section Generic.
     | SetGAttr a => (p_set_gattr A a s, Ok)
     | Copy => (s, Ok)
     | Subgraph _ => (s, Ok)
+    | ClearAll => (p_clear_all A s, Ok)
     end.
 
   Fixpoint set_nth (i : nat) (x : S) (l : list S) : list S :=
@@ -221,6 +224,9 @@ Definition c_restrict (ns : list nat) (s : mstate) : mstate :=
                                  (filter (fun e => memb (eu e) ns && memb (ev e) ns) (ledges y))))
             (layers s)) (gattrs s).
 
+Definition c_clear_all (s : mstate) : mstate :=
+  mkSt [] (map (fun y => mkLay (lname y) (lkind y) [] []) (layers s)) [].
+
 Definition c_has_node (s : mstate) (n : nat) : bool := node_mem n (nodes s).
 Definition c_layer_kind (s : mstate) (l : nat) : option kind := option_map lkind (find_layer l (layers s)).
 Definition c_has_edge (s : mstate) (l u v : nat) : bool :=
@@ -228,7 +234,7 @@ Definition c_has_edge (s : mstate) (l u v : nat) : bool :=
 
 Definition CA : alg mstate :=
   mkAlg mstate c_has_node c_layer_kind c_has_edge c_add_node c_del_node c_ins_edge c_del_edge c_clear
-        c_add_layer c_del_layer c_set_gattr c_restrict.
+        c_add_layer c_del_layer c_set_gattr c_clear_all c_restrict.
 
 Definition empty_state : mstate := mkSt [] [] [].
 Definition admg_state : mstate := mkSt [] [mkLay 0 Dir [] []; mkLay 1 Und [] []; mkLay 2 Und [] []] [].
@@ -341,6 +347,7 @@ Definition sx_op (s : sx) : nat * op :=
    | 10 => RemType (sx_nat (a 0))
    | 11 => SetGAttr (sx_attrs (a 0))
    | 12 => Copy
+   | 14 => ClearAll
    | _ => Subgraph (sx_nats (a 0))
    end).
 
